@@ -150,7 +150,7 @@ Definition table := list row.
 
 Inductive exn :=
 | TypeErr | IndexErr | KeyErr | ValueErr | FieldSelectionErr | DuplicateKeyErr
-| ArgumentErr | StopIterLeak | StopIter | ZeroDivErr | AssertionErr | UserErr (tag : Z) | OtherErr.
+| ArgumentErr | StopIterLeak | StopIter | AttributeErr | ZeroDivErr | AssertionErr | UserErr (tag : Z) | OtherErr.
 
 Inductive res (A : Type) := Ok (a : A) | Err (e : exn).
 Arguments Ok {A} a.
